@@ -326,13 +326,14 @@ func verifC10Eq(a, b reflect.Value, path string, depth int) (bool, string) {
 		if a.Len() == 0 && b.Len() == 0 {
 			return true, ""
 		}
-		if a.Len() != b.Len() {
-			return false, fmt.Sprintf("%s:len %d!=%d", path, a.Len(), b.Len())
-		}
 		if a.Type() == reflect.TypeOf(net.IP{}) {
+			// 4-byte and 16-byte forms of one IPv4 address
 			if net.IP(a.Bytes()).Equal(net.IP(b.Bytes())) {
 				return true, ""
 			}
+		}
+		if a.Len() != b.Len() {
+			return false, fmt.Sprintf("%s:len %d!=%d", path, a.Len(), b.Len())
 		}
 		for i := 0; i < a.Len(); i++ {
 			if ok, p := verifC10Eq(a.Index(i), b.Index(i),
